@@ -4,6 +4,7 @@ Property theorems only (helper lemmas live in `Bourse/Lemmas`).
 -/
 import Bourse.Model.Ops
 import Bourse.Lemmas.Lifecycle
+import Bourse.Lemmas.RefTimes
 
 namespace Bourse.Props.C04
 open Bourse
@@ -78,5 +79,46 @@ example :
     let b4 := (b3.step (.cancel 2)).1                   -- order 2 cancelled
     b4.placeOrder 0 = b4 ∧ b4.cancelOrder 0 = b4 ∧ b4.cancelOrder 2 = b4 ∧
       b4.modifyOrder 2 (some 11) (some 7) = b4 := by decide
+
+
+/-! ### Arrival and end times -/
+
+/-- **Arrival and end times, one operation.** In every reachable state (invariant), for every valid
+operation that does not fault and every order that exists before it, with `t` the book time:
+* once placed, the arrival time never changes (a re-entering modification keeps it);
+* a New order is left exactly as it was, or has been placed now and its arrival time is `t`;
+* the end time changes only at the moment the order becomes Filled, Cancelled or Rejected —
+* — and then it is `t`;
+* a Filled, Cancelled or Rejected record never changes again. -/
+theorem times_one_operation {b : Book} (h : Inv b) (op : Op) (hv : ValidOp op)
+    (hnf : (b.step op).1.faulted = false) (id : Nat) (e : Entry) (he : b.orders[id]? = some e) :
+    ∃ e', (b.step op).1.orders[id]? = some e' ∧
+      (e.order.status ≠ .new → e'.order.arr = e.order.arr) ∧
+      (e.order.status = .new → e'.order = e.order ∨ (e'.order.status ≠ .new ∧ e'.order.arr = b.t)) ∧
+      (¬(isTerminal e'.order.status = true ∧ isTerminal e.order.status = false) → e'.order.endt = e.order.endt) ∧
+      (isTerminal e'.order.status = true → isTerminal e.order.status = false → e'.order.endt = b.t) ∧
+      (isTerminal e.order.status = true → e'.order = e.order) := by
+  obtain ⟨e', he', hs⟩ := step_times h op hv hnf id e he
+  exact ⟨e', he', hs.arrKept, hs.arrSet, hs.endKept, hs.endSet, hs.term⟩
+
+/-- **Open orders carry no end time.** After every valid fault-free history from a new book, an
+order that is New or Active still has the "no end time" value it was created with; so an end time is
+present exactly on terminal orders, and by `times_one_operation` it is the time they became terminal. -/
+theorem open_orders_have_no_end_time (t0 tick : Nat) (trading : Bool) (ht : 0 < tick) (ops : List Op)
+    (hv : ∀ op ∈ ops, ValidOp op) (hnf : NoFault (Book.new t0 tick trading) ops) :
+    ∀ (id : Nat) (e : Entry), ((Book.new t0 tick trading).run ops).orders[id]? = some e →
+      isTerminal e.order.status = false → e.order.endt = MAXT := by
+  intro id e he hnt
+  have h0 : OpenNoEnd (abs (Book.new t0 tick trading)) := by
+    intro id o ho; simp [abs, absOrders, Book.new] at ho
+  have := openNoEnd_run (inv_new t0 tick trading ht) h0 ops hv hnf
+  exact this id e.order (by rw [abs_get, he]; rfl) hnt
+
+/-- Non-vacuity: placement, a fill, a cancel and a rejection with the clock moving in between. -/
+example :
+    let b := (Book.new 0 1 true).run [.create .ask 5 1 (some 10), .time 3, .place 0, .time 5, .cap .bid 2 2 (some 10),
+      .time 7, .cancel 0, .trading false, .time 9, .cap .bid 1 3 none]
+    (b.orders.map fun e => (e.order.status, e.order.arr, e.order.endt)) =
+      [(.cancelled, 3, 7), (.filled, 5, 5), (.rejected, 9, 9)] := by decide
 
 end Bourse.Props.C04
